@@ -239,6 +239,9 @@ func (c *converter) analyse(root ast.Node) {
 
 	ast.Walk(root,
 		func(n ast.Node) bool {
+			if f, ok := n.(*ast.Field); ok {
+				HoistLabelDocComments(f)
+			}
 			relPos := n.Pos().RelPos()
 			hasRelPos := relPos != 0
 
@@ -301,6 +304,38 @@ func (c *converter) analyse(root ast.Node) {
 				nodeFlags[n] = flags
 			}
 		})
+}
+
+// HoistLabelDocComments moves doc comments that the parser attached to
+// the label of f onto f itself. This happens for a field that continues
+// a field chain on a new line (`a:\n\t// doc\n\tb: 1`): the comment
+// precedes the label expression, so it lands on the label rather than
+// on the field. Labels have no rendering slot for comments, so they
+// would be dropped; as doc comments of the field they are rendered
+// where they were written. It is exported for
+// [cuelang.org/go/internal/pretty/style], which must see the comments
+// where this converter will render them.
+func HoistLabelDocComments(f *ast.Field) {
+	if f.Label == nil {
+		return
+	}
+	cgs := ast.Comments(f.Label)
+	if len(cgs) == 0 {
+		return
+	}
+	var keep, docs []*ast.CommentGroup
+	for _, cg := range cgs {
+		if cg.Position == PosDoc {
+			docs = append(docs, cg)
+		} else {
+			keep = append(keep, cg)
+		}
+	}
+	if len(docs) == 0 {
+		return
+	}
+	ast.SetComments(f.Label, keep)
+	ast.SetComments(f, append(docs, ast.Comments(f)...))
 }
 
 // file renders a [ast.File].
